@@ -18,7 +18,9 @@ def main():
     for pid in ALL:
         try:
             mod = importlib.import_module(f"props.{pid.lower()}")
-        except ModuleNotFoundError:
+        except ModuleNotFoundError as e:
+            if e.name != f"props.{pid.lower()}":
+                raise SystemExit(f"{pid}: {e} — run with PYTHONPATH=/repo /venv/bin/python")
             na.append({"property_id": pid, "reason": NOT_YET})
             continue
         checks.append({
